@@ -196,3 +196,60 @@ def sensitivity(seed, only=None):
     missed = [r for r in results if r["status"] != "caught"]
     print(f"selftest-sensitivity: {len(results) - len(missed)}/{len(results)} mutants caught")
     return 0 if not missed else 3
+
+
+# ---------------------------------------------------------------------------------------
+# reach: which documented command-line flags do the command pipelines ever pass?
+# ---------------------------------------------------------------------------------------
+def reach(seed, n=1500):
+    """Informational: runs n scenarios of C17 and C10 (and n/2 of C12, C18) in this process with
+    argparse instrumented and reports, per console command, the options its parser defines that
+    no scenario passed.  C17's quantifier is 'every documented flag combination that is mutually
+    compatible': a flag that is never passed is a hole in the workload."""
+    import argparse
+    import collections
+    import warnings
+
+    from .core import derive_rng
+    from . import runner
+
+    defined = collections.defaultdict(set)
+    used = collections.defaultdict(collections.Counter)
+    orig = argparse.ArgumentParser.parse_args
+
+    def parse_args(self, args=None, namespace=None):
+        key = (self.description or self.prog).strip().split("\n")[0][:70]
+        for a in self._actions:
+            for o in a.option_strings:
+                if o.startswith("--") and o != "--help":
+                    defined[key].add(o)
+        for x in args or []:
+            x = str(x)
+            if x.startswith("--"):
+                used[key][x.split("=")[0]] += 1
+        return orig(self, args, namespace)
+
+    argparse.ArgumentParser.parse_args = parse_args
+    try:
+        with warnings.catch_warnings():
+            warnings.simplefilter("ignore")
+            for pid, count in (("C17", n), ("C10", n), ("C12", n // 2), ("C18", n // 2)):
+                prop = runner.load_prop(pid)
+                for i in range(count):
+                    prop.execute(prop.generate(derive_rng(seed, pid, i), "quick", i))
+    finally:
+        argparse.ArgumentParser.parse_args = orig
+    rows = []
+    missing = 0
+    for key in sorted(defined):
+        never = sorted(o for o in defined[key] if o not in used[key])
+        missing += len(never)
+        rows.append({"command": key, "options_defined": len(defined[key]), "options_passed": {k: v for k, v in sorted(used[key].items())}, "never_passed": never})
+        print(f"reach {key[:60]!r}: {len(defined[key]) - len(never)}/{len(defined[key])} options passed" + (f"; never: {never}" if never else ""))
+    rep = {"seed": seed, "scenarios": {"C17": n, "C10": n, "C12": n // 2, "C18": n // 2}, "commands": rows, "options_never_passed": missing,
+           "note": "informational: console commands are keyed by the first line of their parser description (the two length-moment printers share one)"}
+    os.makedirs(runner.EVIDENCE, exist_ok=True)
+    with open(os.path.join(runner.EVIDENCE, "reach.json"), "w") as f:
+        json.dump(rep, f, indent=1)
+    print(f"selftest-reach: {len(rows)} commands, {missing} documented options never passed")
+    return 0
